@@ -464,6 +464,7 @@ class Interp:
             return                                    # docstring
         if isinstance(v, ast.Call) and _call_root(v.func) in _SKIP_CALL_ROOTS:
             self.session.note_dropped(env.qualname, f"{_call_root(v.func)} call")
+            self._eval_dropped_args(v, env)
             return
         self.eval(v, env)
 
@@ -1110,6 +1111,15 @@ class Interp:
     def ex_FormattedValue(self, e, env):
         return self.ex_JoinedStr(ast.JoinedStr(values=[e]), env)
 
+    def _eval_dropped_args(self, call, env):
+        """the call itself (logging / print) is dropped, but Python evaluates its arguments first and they can raise (a missing
+        metadata key inside an f-string): they are evaluated for that effect; whatever the interpreter cannot evaluate is skipped"""
+        for a in list(call.args) + [k.value for k in call.keywords]:
+            try:
+                self.eval(a.value if isinstance(a, ast.Starred) else a, env)
+            except Unsupported:
+                pass
+
     def ex_Starred(self, e, env):
         raise Unsupported("starred expression")
 
@@ -1117,6 +1127,7 @@ class Interp:
         root = _call_root(e.func)
         if root in _SKIP_CALL_ROOTS:
             self.session.note_dropped(env.qualname, f"{root} call")
+            self._eval_dropped_args(e, env)
             return None
         fn = self.eval(e.func, env)
         if fn is builtins.eval and len(e.args) == 1 and not e.keywords:
